@@ -50,6 +50,20 @@ CHECKS['C19'] = dict(
     technique='Coq proof (decimal print/parse round trips, Euclidean-division arithmetic) + differential correspondence',
     design='C19')
 
+CHECKS['C08'] = dict(
+    text='Theorems (unbounded: every clock >= 1970-01-01T00:01Z, every start/depth/mup/leeway option value, any reference): '
+         'C08_coherent (ast <= now, ast <= publishTime <= now on a whole second, 0 <= depth <= now-ast, firstAvailableTime = '
+         'now-ast-depth >= 0), C08_quantised (publishTime = ast + k*p, lag < p s), C08_monotone_partial (publishTime never '
+         'decreases between instants resolving the same ast), C08_symbolic_age, C08_same_day, C08_now_follows; '
+         'C08_refuted_rollover and C08_refuted_fractional_start are the two recorded findings. Model transcribes '
+         'DashTiming.calculate_live_params; tied to /repo by differential runs of DashTiming (options through the real option parser).',
+    note=TB + 'day-of-month/day-of-year of now are model inputs (any values within 1..31 / 1..366); float arithmetic of '
+         'total_seconds()/round() modelled as exact rationals; option parsing (from_isodatetime, int) is exercised by the '
+         'correspondence, proved only in C19.',
+    technique='Coq proof (Euclidean-division arithmetic over microsecond integers, lia/nia) + differential correspondence of the '
+              'extracted model against DashTiming + property oracle on instant pairs',
+    design='C08')
+
 NOT_YET = {
 }
 
